@@ -373,6 +373,14 @@ def summarise(cases, obs, recs, fails, drifts, runs):
             if node:
                 n = r["nodes"][node - 1]
                 key = f"{judge}/{n['sig']}"
+                if judge == "TypeContains":
+                    # which expressions are concerned (for the key only: the verdict is TLC's): the roots of the columns
+                    # whose declared type misses a value
+                    roots = o["nodes"][node - 1].get("roots") or []
+                    badc = failing_columns(n, judge)
+                    names = sorted({roots[j] if j < len(roots) else "?" for j in badc})
+                    if names:
+                        key += "/" + "+".join(names)
                 if judge == "SizeContains":
                     nrows = len(n["rows"])
                     hi = max(h for _, h in n["size"]) if n["size"] else -1
@@ -432,6 +440,28 @@ def summarise(cases, obs, recs, fails, drifts, runs):
         "samples": [{"sql": c["sql"], "rows_t": c["tables"][0]["rows"], "rows_u": c["tables"][1]["rows"], "result": o.get("orig", {}).get("rows")}
                     for c, o in list(zip(cases, obs))[:: max(1, len(cases) // 6)]][:6],
     }
+
+
+def failing_columns(n, judge):
+    """columns of an encoded node whose declared type does not contain one of the values (same reading of the record as
+    spec/Trace_RelAlg.tla: ValueInType / NullAllowed); used to refine keys, never to decide"""
+    def in_ivs(r, ivs):
+        return any(lo <= r <= hi for lo, hi in ivs)
+    bad = set()
+    for row in n["rows"]:
+        for j, (v, c) in enumerate(zip(row, n["cols"])):
+            null = v[0] == 0
+            if judge == "NullOnlyIfOptional":
+                if null and not (c["opt"] or c["k"] == 0):
+                    bad.add(j)
+                continue
+            if null or c["k"] == 0:
+                continue
+            ok = (c["k"] == 1 and v[0] in (1, 2) and v[2] == 0 and in_ivs(v[1], c["ivs"])) or \
+                 (c["k"] == 2 and v[0] in (1, 2) and in_ivs(v[1], c["ivs"])) or (c["k"] == 3 and v[0] == 3 and in_ivs(v[1], c["ivs"]))
+            if not ok:
+                bad.add(j)
+    return sorted(bad)
 
 
 def norm_msg(m):
